@@ -16,6 +16,9 @@ Required: the body of each response is the 100 bytes of the file (what
 filelike.read() would return -- PEP 3333), and the answer to /ping is a
 separate response.
 """
+import os as _os
+_TREE_UNDER_TEST = _os.environ.get("GVERIF_REPO") or _os.getcwd()   # the checkout under test (was the auditing agent's scratch worktree)
+
 import os
 import socket
 import subprocess
@@ -24,7 +27,7 @@ import tempfile
 import textwrap
 import time
 
-sys.path.insert(0, "/tmp/wa_C02")
+sys.path.insert(0, _TREE_UNDER_TEST)
 
 CONTENT = b"GIF89a" + bytes(range(33, 127)) [:94]
 assert len(CONTENT) == 100
@@ -100,7 +103,7 @@ def main():
     with open(os.path.join(d, "fapp.py"), "w") as f:
         f.write(APP)
     port = free_port()
-    env = dict(os.environ, PYTHONPATH="/tmp/wa_C02" + os.pathsep + d)
+    env = dict(os.environ, PYTHONPATH=_TREE_UNDER_TEST + os.pathsep + d)
     proc = subprocess.Popen(
         [sys.executable, "-m", "gunicorn", "-b", "127.0.0.1:%d" % port,
          "-w", "1", "-k", "gthread", "--threads", "2", "--keep-alive", "5",
